@@ -206,8 +206,9 @@ PROPS = {
                         "the model's atomic step is one storage-manager call (single task)"],
     },
     "C11": {
-        "thm_module": ["AkdModel.Thm.C11", "AkdModel.Thm.C13"],
-        "theorems": ["Akd.C11." + t for t in ["partial_commit_invisible", "partial_commit_invisible_all", "full_commit_visible",
+        "thm_module": ["AkdModel.Thm.C11", "AkdModel.Thm.C13", "AkdModel.Thm.C11b"],
+        "theorems": ["Akd.C11." + t for t in ["partial_commit_requests", "partial_commit_reads", "reads_congr", "audit_congr",
+                                              "partial_commit_invisible", "partial_commit_invisible_all", "full_commit_visible",
                                               "insert_in_txn_keeps_db", "new_keys_invisible"]]
                     + ["Akd.C13.snapshot_read", "Akd.C13.write_preserves"],
         "streams": ["l1.partial"],
